@@ -36,6 +36,24 @@ Proof.
 Qed.
 Print Assumptions c17_build_fields.
 
+(* the keypair list may repeat a key: [A;B;A] with one single-share grant per
+   index and threshold 2 is accepted, and the keys {A,B} reach all 3 shares *)
+Example c17_repeated_recipient :
+  let kps := [edpub (lift [10]); edpub (lift [11]); edpub (lift [10])] in
+  let cf := {| cf_id := lift [7]; cf_threshold := 2; cf_total := 0;
+               cf_grants := [ {| gc_count := 1; gc_idx := [0] |}; {| gc_count := 1; gc_idx := [1] |};
+                              {| gc_count := 1; gc_idx := [2] |} ] |} in
+  (forall pub, In pub kps -> knows [lift [10]; lift [11]] pub = true) /\
+  reach kps [lift [10]; lift [11]] cf = [1;2;3]%nat /\ reach kps [lift [11]; lift [11]] cf = [2]%nat /\
+  is_ok (build {| o_valid := fun _ => true; o_s2raw := fun _ => None; o_s2len := fun _ => 0%nat |}
+           {| r_secret := lift [1]; r_poly := lift [2]; r_nonce := lift (repeat 3 24) |}
+           (lift [99]) (lift [5]) kps (Some cf)) = true.
+Proof.
+  cbv zeta. split.
+  - intros pub [<-|[<-|[<-|[]]]]; vm_compute; reflexivity.
+  - repeat split; vm_compute; reflexivity.
+Qed.
+
 (* non-vacuity: the historical counter-examples are rejected by the model of the repaired code *)
 Definition ex_orc : orc := {| o_valid := fun _ => true; o_s2raw := fun _ => None; o_s2len := fun _ => 0%nat |}.
 Definition ex_rnd : rnd := {| r_secret := lift [1]; r_poly := lift [2]; r_nonce := lift (repeat 3 24) |}.
